@@ -35,14 +35,18 @@ pub fn run_units(ex: &Explorer, units: Vec<Unit>) {
     let next = AtomicUsize::new(0);
     let merged: Mutex<Vec<Acc>> = Mutex::new(Vec::new());
     std::thread::scope(|scope| {
-        for _ in 0..ex.threads {
-            scope.spawn(|| {
+        for w in 0..ex.threads {
+            let (next, merged, units) = (&next, &merged, &units);
+            scope.spawn(move || {
                 loop {
                     if ex.stats.stop.load(Ordering::Relaxed) { break; }
                     let i = next.fetch_add(1, Ordering::SeqCst);
                     if i >= units.len() { break; }
                     let mut acc = Acc::default();
+                    // the wall-clock watchdog also covers sweep units (a subject call that never returns inside one): 300 s per unit
+                    if let Some(watch) = ex.watches.get(w) { *watch.item.lock().unwrap() = Some((format!("sweep unit {} of {}", i, units.len()), vec![])); watch.start_ms.store(ex.t0.elapsed().as_millis() as u64 + 1, Ordering::SeqCst); }
                     let r = std::panic::catch_unwind(std::panic::AssertUnwindSafe(|| units[i](&mut acc)));
+                    if let Some(watch) = ex.watches.get(w) { watch.start_ms.store(0, Ordering::SeqCst); }
                     if r.is_err() {
                         let mut m = ex.stats.machinery_error.lock().unwrap();
                         if m.is_none() { *m = Some(format!("sweep unit {} panicked outside the guarded subject call: {}", i, crate::explore::take_panic_info().unwrap_or_default())); }
